@@ -228,6 +228,8 @@ func main() {
 		c47Main(os.Args[2:])
 	case "c14":
 		c14Main(os.Args[2:])
+	case "c14inflight":
+		c14InflightMain(os.Args[2:])
 	case "c43":
 		c43Main(os.Args[2:])
 	case "c43probe":
